@@ -32,6 +32,35 @@ def reduced_data(levels, names, orc, keep):
     return d
 
 
+def same_tree_api(ctx, a, b, label):
+    """every query the pipeline asks of a taxonomy gives the same answer
+    on both trees (cached lookup tables included)"""
+    def q(t):
+        out = {'hierarchy': list(t.hierarchy), 'leaf_level': t.leaf_level,
+               'all_leaves': sorted(t.all_leaves),
+               'all_parents': sorted(map(str, t.all_parents)),
+               'siblings': sorted(map(tuple, t.siblings)),
+               'as_leaves': {lv: {n: sorted(v) for n, v in d.items()}
+                             for lv, d in t.as_leaves.items()}}
+        for lv in t.hierarchy:
+            for n in t.nodes_at_level(lv):
+                out[('parents', lv, n)] = t.parents(lv, n)
+                if lv != t.leaf_level:
+                    out[('children', lv, n)] = sorted(t.children(lv, n))
+        out[('children', None)] = sorted(t.children(None, None))
+        for p in t.all_parents:
+            out[('pairs', p)] = sorted(map(tuple, t.leaves_to_compare(p)))
+        return out
+    try:
+        qa, qb = q(a), q(b)
+    except Exception as e:
+        ctx.exception(e, f'{label}: {type(e).__name__}: {str(e)[:80]}')
+        return
+    diff = sorted(str(k) for k in set(qa) | set(qb)
+                  if qa.get(k) != qb.get(k))
+    ctx.check(diff == [], f'{label}; differing queries: {diff[:3]}')
+
+
 def h_equivalence(ctx, case):
     levels, names, parents, data = LL.build_tree(ctx, case)
     last = len(levels) - 1
@@ -57,6 +86,9 @@ def h_equivalence(ctx, case):
         return 'EXC ' + type(e).__name__
     ctx.check(red.is_equal_to(indep) and red.hierarchy == keep,
               'reduced tree == taxonomy that never had the level')
+    same_tree_api(ctx, red, indep, 'the reduced tree answers every '
+                  'taxonomy query like the taxonomy that never had the '
+                  'level')
     IT = ctx.int('iterations', 1, 1000000)
     nas = ctx.choice('n_assignments-1', 2) + 1
     try:
@@ -194,6 +226,13 @@ def h_run_mapping_reduced(ctx, case):
         keep = [x for x in ST.LEVELS if x != lv]
     elif kind == 2:
         cfg1['flatten'] = True
+        # flattening wins over a drop_level given at the same time: the
+        # result is still the one-level mapping with the union of *all*
+        # marker lists
+        also = [None, 'class', 'subclass', 'not_a_level'][
+            ctx.choice('drop_level_given_with_flatten', 4)]
+        if also is not None:
+            cfg1['drop_level'] = also
         red = ST.tree_data(True, flat=True)
         cfg2['precomputed_stats'] = {'path': inp.stats_for(red, 'flat')}
         union = sorted({g for v in table.values() for g in v})
